@@ -375,6 +375,13 @@ Fixpoint one_state_views (size : nat) (iv t0 : Z) (ig : bool) (h : list (Z * Z))
   | a :: adds' => one_state_views size iv t0 ig (h ++ [a]) (fst a) adds'
   end.
 
+(* ---------- bulk operations of a case (rendering only: n consecutive keys) ---------- *)
+Definition keyseq (k0 n : Z) : list Z := map (fun i => k0 + Z.of_nat i) (seq 0 (Z.to_nat n)).
+Definition cdelseq (k0 n : Z) : list ccop := map (fun k => CC (CDel k)) (keyseq k0 n).
+Definition csetseq (k0 n v : Z) : list ccop := map (fun k => CC (CSet k v)) (keyseq k0 n).
+Definition xdelseq (k0 n : Z) : list xxop := map (fun k => XX (XDel k)) (keyseq k0 n).
+Definition xsetseq (k0 n v d : Z) : list xxop := map (fun k => XX (XSet k v d)) (keyseq k0 n).
+
 (* ---------- cases ---------- *)
 Inductive case :=
 | KWindow (size : Z) (iv t0 : Z) (ig : bool) (ops : list wop) (seen : list (list (list Z)))
